@@ -168,6 +168,7 @@ class Normal(ast.NodeTransformer):
         self.owner = owner
         self.texts = texts
         self.displays = displays       # chain -> the dict display a constant table is bound to
+        self.records: T.Dict[str, T.List[str]] = {}      # NamedTuple record class (last name component) -> field names in order
         self.nonnull: T.Optional[T.Callable[[str], bool]] = None      # expression text -> it denotes a value that is never None (a declared enum member)
 
     def visit_Subscript(self, n: ast.Subscript) -> ast.AST:
@@ -259,6 +260,20 @@ def _never_none(text: str) -> bool:
             and isinstance(e.func.value.value, str):
         return True
     return False
+
+
+def _record_fields(v: ast.AST, conds: T.Dict[Atom, bool], normal: T.Optional['Normal'], arity: int) -> T.Optional[T.List[str]]:
+    """Field names of the NamedTuple record class that `v` (a name / attribute chain) is an instance of on this path: exactly one
+    `isinstance(v, K)` atom holds for it, K is a record class declared to the normal form, and the unpacking has its arity."""
+    recs = getattr(normal, 'records', None) if normal is not None else None
+    if not recs or not isinstance(v, (ast.Name, ast.Attribute)):
+        return None
+    text = norm(v)
+    hits = [a for a, val in conds.items() if val and a.kind == 'isinstance' and a.args[0] == text and len(a.args[1]) == 1]
+    if len(hits) != 1:
+        return None
+    fields = recs.get(hits[0].args[1][0].split('.')[-1])
+    return list(fields) if fields is not None and len(fields) == arity else None
 
 
 def _first_ifexp(e: ast.AST) -> T.Optional[ast.IfExp]:
@@ -674,6 +689,11 @@ def build(fn: T.Any, body: T.List[ast.stmt], name: str, seed: T.Optional[T.Dict[
                         elif isinstance(v, (ast.Tuple, ast.List)) and len(v.elts) == len(t.elts) and all(names):
                             for nm, x in zip(names, v.elts):
                                 setlocal(T.cast(str, nm), x)
+                        elif _record_fields(v, st.conds, normal, len(t.elts)) is not None and all(names):
+                            # a NamedTuple record (its class known from an `isinstance` atom that holds on the path) is (v.f1, ..., v.fn)
+                            for nm, fld in zip(names, T.cast(T.List[str], _record_fields(v, st.conds, normal, len(t.elts)))):
+                                setlocal(T.cast(str, nm), ast.Attribute(value=copy.deepcopy(v), attr=fld, ctx=ast.Load()))
+                            st.items.append(_mk(fr, None, True, Eff('unpack', str(len(names)), v, '', s_), s_))
                         else:
                             for nm in names:
                                 if nm:
